@@ -320,9 +320,11 @@ class EvolvableCNN(EvolvableModule):
         :return: Shrunk new neural network with copied parameters
         :rtype: nn.Module
         """
+        # Buffers (e.g. BatchNorm running statistics) are carried over like parameters
         old_net_dict = dict(old_net.named_parameters())
+        old_net_dict.update(old_net.named_buffers())
 
-        for key, param in new_net.named_parameters():
+        for key, param in [*new_net.named_parameters(), *new_net.named_buffers()]:
             if key in old_net_dict.keys():
                 old_param = old_net_dict[key]
                 old_size = old_param.data.size()
